@@ -631,6 +631,15 @@ def gen_request(ctx, actor=None, ver=None, max_items=3, weights=None,
         req['ts'] = r.choice([0, -5, -30])
     if r.random() < 0.06:
         req['cred'] = ['user%d' % actor, 'pw-' + ctx.rbytes(6)]
+        y = r.random()
+        if y < 0.3 and tuple(ver) >= (1, 1):
+            req['cred'] = [{'serial': 'sn-%d' % r.randrange(99),
+                            'password': 'pw-' + ctx.rbytes(6),
+                            'device': r.choice([None, 'dev-1']),
+                            'network': r.choice([None, 'net-1'])}]
+        elif y < 0.45 and tuple(ver) >= (1, 2):
+            # several credentials in one header
+            req['cred'] = [req['cred'], ['second', 'pw-' + ctx.rbytes(6)]]
     if r.random() < 0.04:
         req['maxresp'] = r.choice([4096, 100000, 1 << 20])
     return req
